@@ -101,6 +101,49 @@ Fixpoint run_ops {S : Type} (step : S -> el_op -> S * el_out) (s : S) (ops : lis
                let '(s2, os) := run_ops step s1 r in (s2, o :: os)
   end.
 
+(* ---------- what each method of EventListHeap does: impl_step, operation by operation ----------
+   (EventList/GenAgree.v proves the method bodies regenerated from eventlist.py equal to these.) *)
+Definition impl_new : list key := [].                       (* EventListHeap() *)
+Definition impl_add (L : heaplib) (h : list key) (k : key) := impl_step L h (OpAdd k).
+Definition impl_remove (L : heaplib) (h : list key) (k : key) := impl_step L h (OpRemove k).
+Definition impl_pop_first (L : heaplib) (h : list key) := impl_step L h OpPop.
+Definition impl_peek_first (L : heaplib) (h : list key) := impl_step L h OpPeek.
+Definition impl_contains_op (L : heaplib) (h : list key) (k : key) := impl_step L h (OpContains k).
+Definition impl_size (L : heaplib) (h : list key) := impl_step L h OpSize.
+Definition impl_is_empty (L : heaplib) (h : list key) := impl_step L h OpIsEmpty.
+Definition impl_clear (L : heaplib) (h : list key) := impl_step L h OpClear.
+
+(* ---------- creation of events (simevent.py, SimEvent.__init__) ----------
+   The id of an event is its creation stamp: ONE counter, kept on the class SimEvent,
+   is incremented by every construction, of SimEvent and of every subclass alike. *)
+Definition sev_new (count time prio : Z) : sev * Z := (mkSev time prio (count + 1), (count + 1)%Z).
+
+Fixpoint sev_new_all (count : Z) (specs : list (Z * Z)) : list sev :=
+  match specs with
+  | [] => []
+  | (t, p) :: r => let '(e, c) := sev_new count t p in e :: sev_new_all c r
+  end.
+
+(* the event an entry of the list stands for (inverse of sev_key) *)
+Definition key_sev (k : key) : sev := mkSev (k_time k) (- k_nprio k) (k_id k).
+
+(* ---------- the six rich comparisons of a pool of events, for the correspondence check ---------- *)
+Definition b2z (b : bool) : Z := if b then 1%Z else 0%Z.
+Definition cmp_code (a b : sev) : Z :=
+  (b2z (sev_lt a b) + 2 * b2z (sev_le a b) + 4 * b2z (sev_gt a b) + 8 * b2z (sev_ge a b)
+   + 16 * b2z (sev_eq a b) + 32 * b2z (sev_ne a b))%Z.
+(* all ordered pairs (i, j), i-major, packed in base 64, first pair most significant *)
+Definition cmp_pack (pool : list sev) : Z :=
+  fold_left (fun acc a => fold_left (fun acc2 b => (acc2 * 64 + cmp_code a b)%Z) pool acc) pool 0%Z.
+
+Fixpoint cmp_mismatches_from (i : nat) (cases : list (list sev * Z)) : list nat :=
+  match cases with
+  | [] => []
+  | (pool, packed) :: r =>
+      if Z.eqb (cmp_pack pool) packed then cmp_mismatches_from (S i) r
+      else i :: cmp_mismatches_from (S i) r
+  end.
+
 (* ---------- heapq transcription ---------- *)
 Definition dflt : key := mkKey 0 0 0.
 Definition get (l : list key) (i : nat) : key := nth i l dflt.
